@@ -45,6 +45,8 @@ pub fn prot_palette() -> Vec<RProtected> {
     for h in crate::spaces::c11::single_field_headers().into_iter().skip(1).take(5) {
         v.push(RProtected { original: None, header: h });
     }
+    // the same counter signature twice (a list is not a set)
+    v.push(RProtected { original: None, header: RHeader { counter_signatures: vec![sig_reps()[1].clone(), sig_reps()[1].clone()], ..Default::default() } });
     // crit in an order that no canonical form would produce (the list is the caller's)
     v.push(RProtected { original: None, header: RHeader { crit: vec![l_text("x"), l_int(4), l_int(1)], key_id: b"k".to_vec(), ..Default::default() } });
     v
@@ -788,7 +790,13 @@ pub fn explore_c05(ex: &Ex) {
                 crypto::encrypt0(&cx, &e0, &[aad], l);
                 let r = RRecipient { protected: body.clone(), unprotected: RHeader::default(), ciphertext: ct.clone(), recipients: vec![] };
                 let nested = RRecipient { protected: pal[(bi + 3) % pal.len()].clone(), unprotected: RHeader::default(), ciphertext: Some(b"k".to_vec()), recipients: vec![r.clone(), recs[1].clone()] };
-                let e = subject::c_encrypt(&REncrypt { protected: body.clone(), unprotected: RHeader::default(), ciphertext: ct.clone(), recipients: vec![r.clone(), nested.clone()] }).unwrap();
+                let e = subject::c_encrypt(&REncrypt { protected: body.clone(), unprotected: RHeader::default(), ciphertext: ct.clone(), recipients: vec![
+                        r.clone(),
+                        nested.clone(),
+                        // two more, pairwise different (an order or index slip shows from three on)
+                        RRecipient { protected: pal[(bi + 1) % pal.len()].clone(), unprotected: RHeader { key_id: b"r3".to_vec(), ..Default::default() }, ciphertext: Some(b"c3".to_vec()), recipients: vec![] },
+                        RRecipient { protected: pal[(bi + 5) % pal.len()].clone(), unprotected: RHeader::default(), ciphertext: Some(b"c4".to_vec()), recipients: vec![] },
+                    ] }).unwrap();
                 crypto::encrypt(&cx, &e, &[aad], l);
                 crypto::recipient_top(&cx, &subject::c_recipient(&nested).unwrap(), &[aad], l);
                 let m = subject::c_mac(&RMac { protected: RProtected::default(), unprotected: RHeader::default(), payload: Some(b"p".to_vec()), tag: vec![], recipients: vec![nested.clone()] }).unwrap();
